@@ -104,6 +104,14 @@ class S3Spec(CasSpec):
         return None
 
     def objmethod(self, ex, st, cls, name, recv, pos, kw, node, star, dstar):
+        if cls == 'list' and name == 'extend' and len(pos) == 1 and st.entails(Val.is_ref(pos[0])):
+            # an EMPTY list of this call extended by an indexed sequence (a comprehension over one) is that sequence (the loop form of the comprehension)
+            a = st._aclass(st.addr_of(pos[0])); src = st.g.get('iseq', {}).get(a[1]) if a[0] == 'new' else None
+            b = st._aclass(st.addr_of(recv)) if st.entails(Val.is_ref(recv)) else ('old',)
+            if src is not None:
+                if b[0] == 'new' and ex.spine(st, recv) == []:
+                    st.g['iseq'][b[1]] = src; st.g.get('spine', {}).pop(b[1], None); return [(st, ('val', NONE))]
+                raise Unsupported('list.extend of a list that is not empty by an indexed sequence')
         if cls in ('datetime', 'date') and name == 'strftime':
             d = Val.iv(st.rd(recv, 'dayidx')) if cls == 'date' else day_of(Val.iv(st.rd(recv, 'instant')))
             st.g['strftime_fmt'] = pos[0]
@@ -485,7 +493,9 @@ def s3_prefix_iterators(props=None):
             obl.append(Obl('C10/%s/never_raises' % U, P, s1, z3.BoolVal(False), oc)); continue
         sq = iseq_of(s1, oc[1])
         if sq is None:
-            obl.append(Obl('C10/%s/result_is_one_iterator_per_prefix' % U, P, s1, z3.BoolVal(False), oc)); continue
+            # a result built in a way the sidecar cannot index (not a comprehension / map loop over the prefixes): outside the contract's reach,
+            # undecided - never a violation
+            raise Unsupported('the list of prefix iterators is not an indexed sequence over the id prefixes')
         pa = s1.g.get('prefix_args', [])
         obl.append(Obl('C16/%s/prefixes_computed_for_this_category_and_window' % U, P, s1,
                        z3.And(z3.BoolVal(len(pa) == 3), pa[0] == fr['category'], pa[1] == fr['start_date'], pa[2] == fr['end_date']) if len(pa) == 3 else z3.BoolVal(False), oc))
@@ -714,7 +724,7 @@ def facade_iter_keys(props=None):
 # ------------------------------------------------------------------ S3TapeCassette.iter_recording_ids (round-robin generator over the day iterators)
 EXH = z3.Function('iterator_exhausted', Val, z3.IntSort(), z3.BoolSort())      # ghost: iterator it is exhausted at ghost time t (monotone in t)
 REMOVED = z3.Function('list_without_first', SeqV, Val, SeqV)
-_eng.OBJMETHODS |= {('list', 'remove')}
+_eng.OBJMETHODS |= {('list', 'remove'), ('Random', 'choice'), ('Random', 'shuffle'), ('Random', 'randint'), ('Random', 'sample')}
 
 
 class RoundRobinSpec(S3Spec):
@@ -744,6 +754,13 @@ class RoundRobinSpec(S3Spec):
         return outs
 
     def objmethod(self, ex, st, cls, name, recv, pos, kw, node, star, dstar):
+        if cls == 'Random' and name in ('choice', 'random', 'shuffle', 'randint', 'sample'):
+            # a draw from a generator OBJECT (the cassette's own seeded generator decides storage-level sampling, C17): the order of a listing must
+            # not consume it
+            st.g['own_draws'] = st.g.get('own_draws', []) + [(recv, name)]
+            if name == 'choice':
+                return self.lib(ex, st, 'random.choice', pos, kw, node, star, dstar)
+            raise Unsupported('Random.%s in a listing' % name)
         if cls == 'list' and name == 'remove':
             sq = st.seq(recv); x = pos[0]; outs = []
             sH, sM = ex.fork(st, z3.Contains(sq, z3.Unit(x)))
@@ -761,6 +778,7 @@ def s3_iter_recording_ids(props=None):
     st = St(); st.g.update(bucket=z3.Array('BUCKET', Str, Val), bdom=z3.Array('BDOM', Str, z3.BoolSort()), blog=[], yielded=[], time=z3.IntVal(0))
     selfv = st.sym_obj('self', 'S3TapeCassette'); kp = fresh('key_prefix', Str); st.wr(selfv, 'key_prefix', Val.s(kp))
     st.g['mprefix'] = meta_key(kp, z3.StringVal(''))
+    st.wr(selfv, '_random', st.sym_obj('rnd', 'Random'))          # class invariant: the cassette's own seeded generator (unit __init__)
     lim = fresh('limit'); st.assume(z3.Or(lim == NONE, z3.And(Val.is_i(lim), Val.iv(lim) >= 1)))
     rnd = fresh('random_results', z3.BoolSort())
     fr = {'self': selfv, 'category': fresh('category'), 'start_date': fresh('sd'), 'end_date': fresh('ed'), 'metadata': fresh('md'), 'limit': lim, 'random_results': B(rnd)}
@@ -787,7 +805,7 @@ def s3_iter_recording_ids(props=None):
 
         def havoc_state(s):
             s.set_seq(lst, fresh('live_iterators', SeqV)); s.g['time'] = fresh('time', z3.IntSort()); s.g['ybase'] = len(s.g['yielded']); s.g['nbase'] = len(s.g.get('nexts', []))
-            s.g['rbase'] = len(s.g.get('removed', [])); s.g['ycount0'] = fresh('yielded_so_far', z3.IntSort())
+            s.g['rbase'] = len(s.g.get('removed', [])); s.g['ycount0'] = fresh('yielded_so_far', z3.IntSort()); s.g['dbase'] = len(s.g.get('own_draws', []))
 
         def inv(s):
             parts = [s.g['ycount0'] >= 0, z3.Or(lim == NONE, ny(s) <= Val.iv(lim))]
@@ -799,7 +817,8 @@ def s3_iter_recording_ids(props=None):
 
         def per_iteration(s):
             ys = s.g['yielded'][s.g['ybase']:]; nx = s.g.get('nexts', [])[s.g.get('nbase', 0):]; rm = s.g.get('removed', [])[s.g.get('rbase', 0):]
-            cl = [('exactly_one_iterator_advanced', z3.BoolVal(len(nx) == 1))]
+            cl = [('exactly_one_iterator_advanced', z3.BoolVal(len(nx) == 1)),
+                  ('listing_draws_nothing_from_the_cassettes_sampling_generator', z3.BoolVal(not s.g.get('own_draws', [])[s.g.get('dbase', 0):]))]
             if len(nx) == 1:
                 it, k = nx[0]
                 if k is not None:
@@ -810,7 +829,7 @@ def s3_iter_recording_ids(props=None):
         return dict(havoc=[], havoc_state=havoc_state, inv=inv, per_iteration=per_iteration, name='loop.round_robin')
     spec.loop = loop
     paths = ex.block(node.body, st); obl = []; U = 'S3TapeCassette.iter_recording_ids'; P = ('C10', 'C16')
-    obl += [Obl('C10/%s/%s' % (U, a), P, s_, c_, oc_) for a, s_, c_, oc_ in ex.obligations]
+    obl += [Obl('C10/%s/%s' % (U, a), P + ('C17',) if 'sampling_generator' in a else P, s_, c_, oc_) for a, s_, c_, oc_ in ex.obligations]
     for s, oc in paths:
         if oc[0] == 'raise':
             obl.append(Obl('C10/%s/ends_abnormally_only_when_closed_by_the_consumer' % U, P, s, z3.BoolVal(bool(s.g.get('closed_by_consumer'))), oc)); continue
